@@ -9,15 +9,7 @@ fixed("C05","C05-delete-cond-whole-table","DeleteItem evaluates its condition","
 fixed("C05","C05-rvoccf-put-delete","honour ReturnValuesOnConditionCheckFailure","PutItem/DeleteItem (SDK v2) ignored ReturnValuesOnConditionCheckFailure=ALL_OLD")
 fixed("C08","C08-index-key-validate-after-write","validate index key types before writing","PutItem/UpdateItem with a wrong-typed index key returned ValidationException but stored the item")
 fixed("C08","C08-updatetable-attrdefs","failing UpdateTable restores","a rejected UpdateTable still changed the attribute definitions")
-known("C08","C08-batch-partial-application","BatchWriteItem containing an invalid request (missing/ill-typed key or index key) applies the valid requests that precede it and then returns the error: the failing call leaves a trace",
- ["C08|after FAIL:BatchWrite(valid delete, then delete with wrong-typed key)|observe DescribeTable|desc-itemcount@v1", "C08|after FAIL:BatchWrite(valid delete, then delete with wrong-typed key)|observe DescribeTable|desc-itemcount@v2",
-  "C08|after FAIL:BatchWrite(valid put, then put with wrong-typed index key)|observe DescribeTable|desc-index-count@v1", "C08|after FAIL:BatchWrite(valid put, then put with wrong-typed index key)|observe DescribeTable|desc-index-count@v2",
-  "C08|after FAIL:BatchWrite(valid put, then put with wrong-typed index key)|observe DescribeTable|desc-itemcount@v1", "C08|after FAIL:BatchWrite(valid put, then put with wrong-typed index key)|observe DescribeTable|desc-itemcount@v2",
-  "C08|after FAIL:BatchWrite(valid put, then put with wrong-typed index key)|observe GetItem|item@v1", "C08|after FAIL:BatchWrite(valid put, then put with wrong-typed index key)|observe GetItem|item@v2",
-  "C08|after FAIL:BatchWrite(valid put, then put without key)|observe DescribeTable|desc-index-count@v1", "C08|after FAIL:BatchWrite(valid put, then put without key)|observe DescribeTable|desc-index-count@v2",
-  "C08|after FAIL:BatchWrite(valid put, then put without key)|observe DescribeTable|desc-itemcount@v1", "C08|after FAIL:BatchWrite(valid put, then put without key)|observe DescribeTable|desc-itemcount@v2",
-  "C08|after FAIL:BatchWrite(valid put, then put without key)|observe GetItem|item@v1", "C08|after FAIL:BatchWrite(valid put, then put without key)|observe GetItem|item@v2"],
- {"history":["CreateTable tab (h:S, GSI g:S)"],"op":"BatchWriteItem [put {h:k1,a:batch}] [put {a:nokey}] -> ValidationException, yet GetItem(k1) now returns the item"})
+fixed("C08","C08-batch-partial-application","BatchWriteItem validates every request before applying any","a BatchWriteItem containing an invalid request applied the requests preceding it and then returned the error")
 
 known("C19","C19-v2-batchget-absent-unprocessed","SDK v2 BatchGetItem reports keys that have no stored item as UnprocessedKeys instead of leaving them out (pinned by the repository's own TestPutAndGetBatchItem, so it cannot be repaired without editing that test)",
  ["C19|BatchGet(1)|BatchGetItem|unprocessed-keys@v2","C19|BatchGet(2)|BatchGetItem|unprocessed-keys@v2","C19|BatchGet(3)|BatchGetItem|unprocessed-keys@v2","C19|BatchGet(4)|BatchGetItem|unprocessed-keys@v2"],
